@@ -3,6 +3,7 @@ C03 at character level: the tokens of a `Run` come in reading order against the 
 `parse_statements_roundtrip`) — each token lies on the last line known when it is read, and the table only grows.
 -/
 import ZnVerif.Proofs.LexSimBase
+import ZnVerif.Proofs.CmtSimBase
 
 namespace ZnVerif.Proofs.LexSim
 open ZnVerif.Model ZnVerif.Model.Parser ZnVerif.Generated.Tokens
@@ -10,11 +11,16 @@ open ZnVerif.Spec.StmtSyntax ZnVerif.Proofs.LexRun
 
 variable {Y : Layout} (R : Run Y)
 
-theorem sl_tk (i : Nat) : Y.sl (R.tk i) = nl R i - 1 :=
-  (known_around R (Nat.le_refl i) (R.tk i).startIdx (Nat.le_refl _) (R.span i)).2.1
+theorem sl_tk (i : Nat) : Y.sl (R.tk i) = R.sline i := (known_start R (Nat.le_refl i) 0 (Nat.zero_le _)).2
 
-theorem el_tk (i : Nat) : Y.el (R.tk i) = nl R i - 1 :=
-  (known_around R (Nat.le_refl i) (R.tk i).endIdx (R.span i) (Nat.le_refl _)).2.1
+theorem el_tk (i : Nat) : Y.el (R.tk i) = nl R i - 1 := (known_end R (Nat.le_refl i) 0 (Nat.zero_le _)).2
+
+/-- start lines do not decrease along the run -/
+theorem sline_mono {i i' : Nat} (h : i < i') : R.sline i ≤ R.sline i' := by
+  have h1 := R.sline_lt i
+  have h2 := sline_ge' R h
+  unfold nl at h2
+  omega
 
 theorem peek_rest (i : Nat) : Y.peek (rest R i) = R.tk i := by
   by_cases h : i < R.N
@@ -32,8 +38,7 @@ theorem rest_inOrder (hnc : ∀ j, j < R.N → (R.tk j).type ≠ cTypeComment) :
     rw [rest_lt R hi]
     refine ⟨hnc i hi, ?_, ?_, ih (i + 1) (by omega)⟩
     · rw [peek_rest, sl_tk, sl_tk]
-      have := nl_mono R (show i ≤ i + 1 by omega)
-      omega
+      exact sline_mono R (Nat.lt_succ_self i)
     · rw [peek_rest, el_tk, el_tk]
       have := nl_mono R (show i ≤ i + 1 by omega)
       omega
@@ -46,5 +51,61 @@ theorem run_inOrder (hnc : ∀ j, j < R.N → (R.tk j).type ≠ cTypeComment) : 
 theorem tk_mem_toks {j : Nat} (h : j < R.N) : R.tk j ∈ R.toks := by
   unfold Run.toks
   exact List.mem_map.mpr ⟨j, List.mem_range.mpr h, rfl⟩
+
+
+/-! ### with comment tokens in the run: the other tokens come in reading order -/
+
+open ZnVerif.Proofs.CmtSim (clean noC)
+
+theorem clean_cons_comment {t : Token} {r : List Token} (h : t.type = cTypeComment) : clean (t :: r) = clean r := by
+  have : noC t = false := by simp [noC, h]
+  simp only [clean, List.filter_cons, this]; rfl
+
+theorem clean_cons_other {t : Token} {r : List Token} (h : t.type ≠ cTypeComment) : clean (t :: r) = t :: clean r := by
+  have : noC t = true := by simp [noC, h]
+  simp only [clean, List.filter_cons, this]; rfl
+
+/-- the next token that is not a comment is a later token of the run (or the EOF the run ends with) -/
+theorem peek_clean_rest : ∀ (n i : Nat), R.N - i = n → ∃ i', i ≤ i' ∧ Y.peek (clean (rest R i)) = R.tk i' := by
+  intro n
+  induction n with
+  | zero =>
+    intro i h
+    refine ⟨i, Nat.le_refl _, ?_⟩
+    rw [rest_ge R (by omega), R.eof i (by omega)]; rfl
+  | succ n ih =>
+    intro i h
+    have hi : i < R.N := by omega
+    rw [rest_lt R hi]
+    by_cases hc : (R.tk i).type = cTypeComment
+    · rw [clean_cons_comment hc]
+      obtain ⟨i', h1, h2⟩ := ih (i + 1) (by omega)
+      exact ⟨i', by omega, h2⟩
+    · rw [clean_cons_other hc]
+      exact ⟨i, Nat.le_refl _, rfl⟩
+
+theorem clean_rest_inOrder : ∀ (n i : Nat), R.N - i = n → Y.InOrder (clean (rest R i)) := by
+  intro n
+  induction n with
+  | zero => intro i h; rw [rest_ge R (by omega)]; trivial
+  | succ n ih =>
+    intro i h
+    have hi : i < R.N := by omega
+    rw [rest_lt R hi]
+    by_cases hc : (R.tk i).type = cTypeComment
+    · rw [clean_cons_comment hc]; exact ih (i + 1) (by omega)
+    · rw [clean_cons_other hc]
+      obtain ⟨i', h1, h2⟩ := peek_clean_rest R (R.N - (i + 1)) (i + 1) rfl
+      refine ⟨hc, ?_, ?_, ih (i + 1) (by omega)⟩
+      · rw [h2, sl_tk, sl_tk]
+        exact sline_mono R (by omega)
+      · rw [h2, el_tk, el_tk]
+        have := nl_mono R (show i ≤ i' by omega)
+        omega
+
+/-- **the tokens of a run, comments dropped, come in reading order** -/
+theorem run_inOrder_clean : Y.InOrder (clean R.toks) := by
+  rw [← rest_zero R]
+  exact clean_rest_inOrder R R.N 0 rfl
 
 end ZnVerif.Proofs.LexSim
